@@ -116,7 +116,12 @@ def case(item):
         else:
             argv = ['redo', '-j%d' % slots, top]
         try:
-            r = run_cmd(argv, pj.top, env=env, timeout=90, pass_fds=fds, stuck_after=8.0)
+            # a quarter of the runs with descheduling injection (redo processes stopped and continued at random), another
+            # quarter with long stops aimed at processes that sit idle waiting for a slot: coincidences of token arrival,
+            # child exit and timer expiry in one wake-up
+            stutter = ('waiters', seed) if seed % 4 == 1 else (seed if seed % 4 == 3 else None)
+            sets['descheduling'] = ['none' if stutter is None else ('idle-waiters' if isinstance(stutter, tuple) else 'random')]
+            r = run_cmd(argv, pj.top, env=env, timeout=90, pass_fds=fds, stuck_after=8.0, stutter=stutter)
             back = js.drain() if js else None
             cheat_left = js.drain_cheat() if js else None
         finally:
